@@ -216,8 +216,9 @@ func Decrypt(in io.Reader, opts DecryptOptions) (io.Reader, error) {
 
 	// Unwrap the file key
 	// Note: we're skipping the nonce and tag parameters at the moment because none of the supported ciphers use them
-	fileKeyBytes, _ := opts.UnwrapKeyFn(manifestObj.WFK, string(manifestObj.KeyWrappingAlgorithm), keyName, nil, nil)
-	if len(fileKeyBytes) != 32 {
+	fileKeyBytes, unwrapErr := opts.UnwrapKeyFn(manifestObj.WFK, string(manifestObj.KeyWrappingAlgorithm), keyName, nil, nil)
+	unwrapFailed := unwrapErr != nil || len(fileKeyBytes) != 32
+	if unwrapFailed {
 		// This is where things get a bit tricky.
 		// If the UnwrapKeyFn returned an error, we want to ignore that for now, and instead continue validating the MAC using an empty fileKey (which will fail).
 		// This is because otherwise we may be making it easier to disclose certain information such as whether a key exists or not in the vault via timing attacks.
@@ -234,6 +235,11 @@ func Decrypt(in io.Reader, opts DecryptOptions) (io.Reader, error) {
 
 	// Now validate the MAC of the header
 	err = fk.VerifyHeaderSignature(manifest, mac)
+	if err == nil && unwrapFailed {
+		// The file key could not be unwrapped and the MAC was computed with the all-zero key above only to keep the timing uniform.
+		// That key is public: a MAC that verifies under it proves nothing (anyone can produce such a document), so the document must be refused.
+		err = ErrDecryptionSignature
+	}
 	if err != nil {
 		return nil, err
 	}
